@@ -349,6 +349,16 @@ func runC16(c *Ctx) {
 	c.chunkStageStandalone("S.response-per-report")
 	R.Require("S.response-per-report", 1, "")
 	c.recordPerFile()
+	// the sweep answers "nothing missing" at once when the record's received size equals the file size: that shortcut is
+	// only as good as the accounting of the received size, which is C15's chunk rule, run here as well
+	if stage := c.P.Method("attachment", "PackageProgress", "stageStreamData"); stage != nil {
+		R.Rules["T.chunk"] = "a chunk is recorded as exactly the window [headLen, headLen+bodyLen) of the pending buffer (see C15)"
+		R.Rules["T.account"] = "received-size accounting: a chunk adds its body length once per offset (a resent offset first takes back the length recorded for it), the length recorded per offset is the chunk's length, and the file is marked complete only where CurrentSize == FileSize holds - the premise of the sweep's 'received size == file size: complete' shortcut"
+		c.c15Chunk(stage)
+		R.Require("T.account", 5, "")
+	} else {
+		R.Fatal("anchor PackageProgress.stageStreamData not found")
+	}
 	R.Explain = "Structural necessary conditions of the completion report, decided for all inputs: the sweep runs over the sorted slice, starts at 0, emits only non-empty wrap-free ranges; " +
 		"the handler stores the computed list on every path; the reply's flag/count/list agree with that list; the stage is Supplementary exactly when ranges are missing; " +
 		"0x9212 is read and written as (offset,length) u32 pairs at an 8-byte stride with the matching length equation. Exactness of the interval complement over all chunk sets is not decided."
